@@ -216,6 +216,14 @@ def r33(ctx, acq_funcs):
                 nn = cfg.node_of(n)
                 doms = [c for c in calls if cfg.dominates(cfg.node_of(c), nn)]
                 slots = {ast.unparse(c.args[0]) for c in doms if c.args}
+                if len(slots) < 2:
+                    # the partner may be acquired after the pair is named but before the job is recorded:
+                    # every path from here to the record of the job must then pass another acquire
+                    recs = [c for c in walk_local(f) if isinstance(c, ast.Call) and isinstance(c.func, ast.Attribute) and c.func.attr == "append" and path_of(c.func.value) == "self.locked"]
+                    later = [c for c in calls if c not in doms and c.args and ast.unparse(c.args[0]) not in slots]
+                    lnodes = [cfg.node_of(c) for c in later]
+                    if recs and later and not any(cfg.reaches(nn, cfg.node_of(rc), avoid=lnodes) for rc in recs):
+                        slots |= {ast.unparse(c.args[0]) for c in later}
                 if len(slots) >= 2:
                     ctx.ok(rid, n, f"{f.name}: two-ensemble job: both slots acquired before it is formed ({sorted(slots)})")
                 else:
